@@ -621,6 +621,11 @@ class Trimesh(Geometry3D):
         center_mass : (3, ) float
            Volumetric center of mass of the mesh.
         """
+        # an overridden center of mass is stored
+        # data of this object and can be edited in place
+        center_mass = self._data.data.get("center_mass", None)
+        if center_mass is not None:
+            return center_mass
         return self.mass_properties.center_mass
 
     @center_mass.setter
@@ -2750,11 +2755,12 @@ class Trimesh(Geometry3D):
             center_mass=center_mass,
             skip_inertia=False,
         )
-        # this is a cached value which copies may share so its arrays
-        # are read-only: an overridden center of mass is the stored
-        # array itself and stays editable
-        if center_mass is None:
-            properties.center_mass.flags.writeable = False
+        # this is a cached value which copies may share
+        # so its arrays are read-only
+        if center_mass is not None:
+            # the override stays with the object it was set on
+            properties.center_mass = np.array(center_mass, dtype=np.float64)
+        properties.center_mass.flags.writeable = False
         if properties.inertia is not None:
             properties.inertia.flags.writeable = False
         return properties
